@@ -103,6 +103,8 @@ pub(crate) fn tokenize(
         // extending include_directives with the last index of the input_tokens simplifies the logic, because then all blocks of tokens have a start and end index
         include_directives.push(input_tokens.len());
         for idx in 1..include_directives.len() {
+            #[cfg(feature = "verif_hooks")]
+            crate::verif_hooks::tick();
             // token_subseq contains all tokens between the previous include directive and the current one
             let token_subseq =
                 &input_tokens[include_directives[idx - 1] + 1..include_directives[idx]];
@@ -187,6 +189,8 @@ fn tokenize_core(
 
     while bytepos < datalen {
         let startpos = bytepos;
+        #[cfg(feature = "verif_hooks")]
+        crate::verif_hooks::tick();
 
         if filebytes[bytepos].is_ascii_whitespace() {
             // skip whitespace
@@ -490,6 +494,8 @@ fn handle_a2ml(
         if tag == "A2ML" {
             let mut done = false;
             while !done && bytepos < datalen {
+                #[cfg(feature = "verif_hooks")]
+                crate::verif_hooks::tick();
                 // find the next occurrence of '/'
                 // this should be the start of one of "/*", "//", or "/end"
                 while bytepos < datalen && filebytes[bytepos] != b'/' {
